@@ -327,8 +327,12 @@ func decodeStructValueSlice(field reflect.Value, fieldType reflect.StructField, 
 
 	els := strings.Split(value, delim)
 	if delim == " " {
-		/* a blank-separated list may be folded over several lines */
-		els = strings.Fields(value)
+		/* a blank-separated list may be folded over several lines; it
+		 * is separated by blanks, tabs and line ends, not by every rune
+		 * Unicode calls a space */
+		els = strings.FieldsFunc(value, func(r rune) bool {
+			return r == ' ' || r == '\t' || r == '\n' || r == '\r'
+		})
 	}
 
 	for _, el := range els {
